@@ -287,3 +287,9 @@ Definition stride_spec {A} (d : A) (fx fy fz : nat) (nc nz ny nx : nat) (a : arr
 Definition majority_spec (fx fy fz : nat) (nc nz ny nx : nat) (a : arr4 Z) : arr4 (option Z) :=
   tab nc (fun c => tab (cdiv nz fz) (fun z => tab (cdiv ny fy) (fun y => tab (cdiv nx fx) (fun x =>
     majority_ref (majority_block_at fx fy fz a c z y x))))).
+
+(* guard of the uint64 averaging findings: some voxel at or above 2^49 (below,
+   every partial sum of eight voxels in units of 1/8 fits 53 bits) *)
+Definition avg_uint64_guard (dt : dtype) (V : arr4 Z) : bool :=
+  negb (dtype_eqb dt U64 && existsb (fun v => (2 ^ 49 <=? v)%Z) (flatten V)).
+
